@@ -14,6 +14,28 @@ def findEnc (n : String) : Except String Enc :=
 
 def handle (op : String) (j : Json) : Except String Json := do
   match op with
+  | "offset_byte" =>
+    let n ← getStr j "enc"
+    let b ← getNat j "b"
+    match Gen.C06.offsets.find? (·.1 == n) with
+    | none => throw s!"unknown offset encoding {n}"
+    | some p =>
+      let code := p.2.encT.getD b 999
+      let m := Json.mkObj [("code", nat code), ("dec", nat (p.2.decT.getD code 999))]
+      let s := Json.mkObj [("code", nat (offsetEncode p.2.minCode b)), ("dec", nat b)]
+      pure (reply m (some s))
+  | "offset_rows" =>
+    let n ← getStr j "enc"
+    let rows ← getNatListList j "rows"
+    match Gen.C06.offsets.find? (·.1 == n) with
+    | none => throw s!"unknown offset encoding {n}"
+    | some p =>
+      let codes := rows.flatten.map (fun b => p.2.encT.getD b 999)
+      let m := Json.mkObj [("codes", natList codes), ("lens", natList (rows.map List.length)),
+        ("dec", natList (codes.map (fun d => p.2.decT.getD d 999))), ("input_unchanged", Json.bool true)]
+      let s := Json.mkObj [("codes", natList (rows.flatten.map (offsetEncode p.2.minCode))), ("lens", natList (rows.map List.length)),
+        ("dec", natList rows.flatten), ("input_unchanged", Json.bool true)]
+      pure (reply m (some s))
   | "enc_byte" =>
     let E ← findEnc (← getStr j "enc")
     let b ← getNat j "b"
